@@ -629,3 +629,6 @@ fn test_file_executor_aggregate5() {
     assert_eq!("hostname: 'aml-sfh-3310b.adsl.wanadoo.nl', count: 32, last_day: 17", executor.output_printer().printer().lines()[0]);
     assert_eq!("hostname: 'host8.topspot.net', count: 46, last_day: 17", executor.output_printer().printer().lines()[1]);
 }
+#[cfg(kani)]
+#[path = "/verif/kani/executor.rs"]
+mod verif_kani;
